@@ -47,7 +47,7 @@ _PPN = r"[0-9][0-9A-Za-z]*"
 LENIENT_LINE = ModelPattern(r"[ \t]*(?:line[ \t]+)?" + _PPN + r"[ \t]*(?:" + reflex.STRING + r"[ \t]*(?:" + _PPN + r"[ \t]*)*)?")
 MUST_BE_LINE = ModelPattern(r"[ \t]*(?:line\W|\d)")
 LOOKS_LIKE_LINE = ModelPattern(r"[ \t]*(?:line(?!\w)|\d)")
-PRAGMA_HEAD = ModelPattern(r"[ \t]*pragma(?![A-Za-z0-9_$])")
+PRAGMA_HEAD = ModelPattern(r"[ \t]*pragma(?!\w)")
 WORDCH = IntervalSet([(48, 57), (65, 90), (97, 122), (95, 95)])
 
 
